@@ -203,7 +203,8 @@ Section Sound.
     Proof.
       intros H. destruct (prop_eq_spec p q H) as [_ [_ [E3 E4]]]. unfold missing. rewrite E3.
       destruct (p_state q).
-      - apply match_opt_eq. apply R_kind. exact E4.
+      - rewrite (Hde _ _ E4 JNull). destruct (R_step _ _ E4) as [d [d' [E1 [E2 _]]]].
+        rewrite E1, E2. reflexivity.
       - apply Hdf. exact E4.
       - apply Hde. exact E4.
     Qed.
